@@ -237,11 +237,18 @@ func idpreqSession() *saml.Session {
 		UserName: "alice", UserEmail: "alice@example.com"}
 }
 
+// the IdP's other endpoints (a complete configuration as samlidp.New makes it)
+const (
+	idpreqLoginURL  = "https://idp.example.com/saml/login"
+	idpreqLogoutURL = "https://idp.example.com/saml/logout"
+)
+
 func idpreqNewIdP(prov saml.ServiceProviderProvider, sess saml.SessionProvider) *saml.IdentityProvider {
 	k := key("idp1")
 	return &saml.IdentityProvider{
 		Key: k.Key, Certificate: k.Cert, Logger: idpreqLogger,
 		MetadataURL: mustURL(idpEntityID), SSOURL: mustURL(idpSSOURL),
+		LoginURL: mustURL(idpreqLoginURL), LogoutURL: mustURL(idpreqLogoutURL),
 		ServiceProviderProvider: prov, SessionProvider: sess,
 	}
 }
@@ -335,6 +342,8 @@ func idpreqRequestXML(v *idpreqVec, now time.Time, rng *rand.Rand, id string) []
 		el.CreateAttr("Destination", idpreqNearMiss(idpSSOURL, rng))
 	case "other":
 		el.CreateAttr("Destination", idpreqPick(rng, "https://evil.example.net/saml/sso", idpEntityID, "https://idp.example.com/", "sso"))
+	case "ownurl": // another endpoint of the same IdP
+		el.CreateAttr("Destination", []string{idpreqLoginURL, idpreqLogoutURL, idpEntityID}[rng.Intn(3)])
 	case "empty":
 		el.CreateAttr("Destination", "")
 	}
